@@ -140,6 +140,8 @@ class Rat:
         return Rat(self.n * o.d, self.d * o.n)
 
     def equals(self, o):
+        if reduce_trig(self.d).is_zero() or reduce_trig(o.d).is_zero():
+            return False        # an expression with a vanishing denominator equals nothing
         return reduce_trig(self.n * o.d) == reduce_trig(o.n * self.d)
 
     def is_zero(self):
@@ -151,6 +153,8 @@ class Rat:
     def canon(self):
         """Canonical text (used when this value becomes an argument of an opaque symbol)."""
         n, d = reduce_trig(self.n), reduce_trig(self.d)
+        if d.is_zero():
+            return '(%r)/0' % n
         if d.is_const() and not d.is_zero():
             c = d.const_value()
             n = Poly({k: v / c for k, v in n.t.items()})
